@@ -210,6 +210,9 @@ pub struct FaceIntegrator<I: FaceIntegralWithData> {
     pub(super) integral: I,
 
     pub(super) shift: Option<DVec3>,
+
+    /// The (inward pointing) normal of the plane of this face.
+    pub(super) inward_normal: DVec3,
 }
 
 impl<D: Copy, I: FaceIntegralWithData<Data = D>> FaceIntegrator<I> {
@@ -223,11 +226,23 @@ impl<D: Copy, I: FaceIntegralWithData<Data = D>> FaceIntegrator<I> {
             right: cell.clipping_planes[clipping_plane_idx].right_idx,
             integral: I::init_with_data(cell, clipping_plane_idx, data),
             shift: cell.clipping_planes[clipping_plane_idx].shift,
+            inward_normal: cell.clipping_planes[clipping_plane_idx].normal(),
         }
     }
 
     pub(crate) fn collect(&mut self, v0: DVec3, v1: DVec3, v2: DVec3, gen: DVec3) {
-        self.integral.collect(v0, v1, v2, gen);
+        // The orientation of the base triangle is defined as seen from the generator. That is
+        // ill-defined when the generator lies (up to rounding) in the plane of the face, i.e. for
+        // a generator on a wall of the simulation volume: view the triangle from a point
+        // displaced into the cell then.
+        let distance = (gen - v0).dot(self.inward_normal);
+        let errb = 1e-13 * (1. + self.inward_normal.abs().dot(v0.abs()));
+        let apex = if distance > errb {
+            gen
+        } else {
+            gen + (v1 - v0).length().max((v2 - v0).length()) * self.inward_normal
+        };
+        self.integral.collect(v0, v1, v2, apex);
     }
 
     pub(crate) fn finalize(mut self) -> Self {
